@@ -28,7 +28,7 @@ PROPS = {
         projection="contents_formatted / state_formatted bytes (Emit.contents_formatted_t, state_formatted_t) and the screen state they are computed from",
     ),
     "C02": dict(
-        level_text='FULL at scrollback offset 0 outside the exact class k10 of the open finding D10; the unrestricted statement is REFUTED. Statement = the executable byte-level round trip DiffRound.diff_round_ok (fresh parser, bytes of state_formatted(P), bytes of state_diff(S,P), obs compared). C02_refuted: false of the model for reachable 2x2 screens (D10, replayed on the crate). C02sem_K (Props/C02k10.v; DiffWrap, DiffK10, DiffRoundK on top of DiffPaint/DiffGrid/DiffMain): for ALL reachable P, S of equal size at offset 0 with k10 P S = false, diff_round_ok P S (+ no callback event, ground parser: C02sem_K_strong), where the executable predicate k10 P S says: some row r (not the last) is soft-wrapped in both screens, P has a wide character at column cols-2 of that row where S has no contents, and the first cells of row r+1 are equal in P and S; C02k10_d10: the D10 witness satisfies k10; C02k10_W_inside / C02k10_U_inside: pairs whose wrapped rows are untouched, and pairs without wrapped rows, are outside k10; C02sem_K_chain: one receiver fed diff(S1,S0), diff(S2,S1), ... stays equal to the latest snapshot for every chain whose consecutive pairs avoid k10. Before proving, the byte-level round trip was evaluated by vm_compute on 50 250 929 ordered pairs of small screens with wrapped rows: 374 454 fail, all only in wrap flags, and failing <=> k10 on every explored pair (the converse is not proved). C02_total / C02_bytes: for all reachable pairs the diff emitters succeed and every token re-parses. Scrolled views (offset > 0) are carried by the differential correspondence of the diff bytes plus the oracle.',
+        level_text='FULL at scrollback offset 0 (after repairing defect D10, fix 99d8cec): the statement is the executable byte-level round trip DiffRound.diff_round_ok (fresh parser, bytes of state_formatted(P), bytes of state_diff(S,P), obs compared). C02sem_all (Props/C02all.v; DiffPaint, DiffGrid, DiffMain, DiffWrap, DiffK10, DiffRoundAll on the C01 receiver infrastructure): for ALL reachable P, S of equal size at offset 0, diff_round_ok P S, with no callback event, a ground parser and a canvas receiver (C02sem_all_strong); C02sem_all_chain: one receiver fed diff(S1,S0), diff(S2,S1), ... stays equal to the latest snapshot for every chain of reachable same-size snapshots. History of the defect kept as theorems: C02_old_loop_refuted (the loop as it was before the fix fails on the D10 pair, DiffHistory.v), C02sem_K (the old loop was correct exactly outside the executable class k10: a row soft-wrapped in both screens with a wide character at column cols-2 in P where S has no contents, and an unchanged first cell in the next row), C02_d10_repaired / C02all_d10 (the witness now round-trips). Before proving, the byte-level round trip was evaluated by vm_compute on 50 250 929 ordered pairs of small screens with wrapped rows: 374 454 failed on the old loop (exactly the k10 pairs, only wrap flags), 0 fail on the repaired loop. C02_total / C02_bytes: for all reachable pairs the diff emitters succeed and every token re-parses. Scrolled views (offset > 0) are outside the theorem and carried by the differential correspondence of the diff bytes plus the oracle.',
         families=[("emit", 1500, 60000), ("wrapdiff", 1500, 40000), ("cursorfix", 500, 10000), ("modes", 300, 4000)],
         projection="contents_diff / state_diff bytes (Emit.contents_diff_t, state_diff_t) against snapshots",
     ),
